@@ -75,39 +75,56 @@ func (pj *internalParsedJson) parseMessage(msg []byte, ndjson bool) (err error) 
 	if len(pj.Message) > 8<<10 {
 		var wg sync.WaitGroup
 		wg.Add(1)
+		simProbe(simProbeAsync)
 		go func() {
 			defer wg.Done()
+			defer simHook(simCDone, pj, 0)
+			simHook(simCStart, pj, 1)
 			if ok, done := pj.unifiedMachine(); !ok {
 				err = errors.New("Bad parsing while executing stage 2")
 				// Keep consuming...
 				if !done {
+					simProbe(simProbeDrainAsync)
+					simHook(simCRecv, pj, 1)
 					for idx := range pj.indexChans {
+						simHook(simCReceived, pj, idx.index)
 						if idx.index == -1 {
 							break
 						}
+						simHook(simCRecv, pj, 1)
 					}
 				}
 			}
 		}()
 		if !pj.findStructuralIndices() {
+			simProbe(simProbeStage1FailAsync)
 			errStage1 = errors.New("Failed to find all structural indices for stage 1")
 		}
 		wg.Wait()
 	} else {
+		simProbe(simProbeSync)
 		if !pj.findStructuralIndices() {
+			simProbe(simProbeDrainSync1)
 			// drain the channel until empty
+			simHook(simCRecv, pj, 2)
 			for idx := range pj.indexChans {
+				simHook(simCReceived, pj, idx.index)
 				if idx.index == -1 {
 					break
 				}
+				simHook(simCRecv, pj, 2)
 			}
 			return errors.New("Failed to find all structural indices for stage 1")
 		}
+		simHook(simCStart, pj, 0)
 		if ok, _ := pj.unifiedMachine(); !ok {
+			simProbe(simProbeDrainSync2)
 			// drain the channel until empty
 			for {
+				simHook(simCRecv, pj, 3)
 				select {
 				case idx := <-pj.indexChans:
+					simHook(simCReceived, pj, idx.index)
 					if idx.index == -1 {
 						return errors.New("Bad parsing while executing stage 2")
 					}
